@@ -189,7 +189,8 @@ def gen_world(rng, profile=None):
     network = pick(rng, prof, "network", "haversine")
     extent_m = min(4000.0, max(40.0, 11.1 * step * rng.uniform(1.5, 10.0)))
     if "extent_m" in prof:
-        extent_m = float(pick(rng, prof, "extent_m", extent_m))
+        e = float(pick(rng, prof, "extent_m", extent_m))
+        extent_m = e if e > 0 else extent_m      # 0 = keep the extent tied to the step length
 
     # search resolution: so that small worlds cross search cells
     want = extent_m / 1000.0
